@@ -230,6 +230,31 @@ def check(rep, prop, tier, seed):
                        "expected_from_model": exp[i], "how": " ".join(results[0][0][:6]) + " ... (build/c14/be_cases_%d.c)" % (i % nchunks)})
         diff_groups["*"] = [i]
     nassert = len(re.findall(r"\] line \d+ case \d+", out))
+    # ---- the same cases on the little-endian build (natively), against the same expectations:
+    # a host-order-dependent path that is wrong only on little-endian hosts differs HERE from what the
+    # big-endian interpretation (and the Model) give (seed C14-7)
+    spec_, exe = common.build_harness("asan")
+    le = common.Cases()
+    le_idx = []
+    for i, c in enumerate(cases):
+        if c["kind"] == "bo":
+            continue
+        le.add([re.sub(r" B( |$)", r" L\1", o) for o in c["ops"]])
+        le_idx.append(i)
+    rcode, c_out, err = common.run_c(exe, le.render())
+    got = common.split_cases(c_out)
+    n_le_bad = 0
+    for k, i in enumerate(le_idx):
+        g = [x for x in got.get(k, []) if x != "bad-op"]
+        w = [x for x in exp.get(i, []) if x != "bad-op"]
+        if g != w:
+            n_le_bad += 1
+            c = cases[i]
+            rep.violation("little-endian:%s:%s" % (c["kind"], c.get("fmt") or c.get("code") or c.get("desc")),
+                          {"kind": "little-endian-build-differs-from-the-big-endian-result", "ops": le.cases[k], "observed_little_endian_build": g,
+                           "expected_same_as_big_endian_and_model": w, "stderr": err[-600:] if rcode else ""})
+            diff_groups["*"] = [i]
+    rep.cov["little_endian_native_cases"] = {"cases": len(le_idx), "disagreements": n_le_bad}
     pipeline.report_proof_failures(rep, prop, res, diff_groups)
     kinds = {(c["kind"], str(c.get("helper") or c.get("fmt") or c.get("code") or c.get("desc"))) for c in cases}
     rep.cov.update(evaluations=len(cases), distinct_nontrivial=len(kinds), cbmc_assertions=nassert, cbmc_failures=nfail,
